@@ -635,11 +635,17 @@ def newsvendor_heuristic(num_nodes=None, node_order_in_system=None, node_order_i
 	h = [0] + [echelon_holding_cost_dict[j] for j in range(1, N+1)]
 	p = stockout_cost
 
+	# Sum of lead times of stages 1, ..., j. (Kept integer if it is integer-valued: the lead-time demand distributions
+	# of the discrete-uniform, continuous-uniform and custom-discrete demand types are convolutions and need an integer count.)
+	def sum_lead_times(j):
+		sum_L = float(np.sum(L[1:(j+1)]))
+		return int(sum_L) if sum_L.is_integer() else sum_L
+
 	# Build "sum of lead-time demand" distributions (LTD distribution in
 	# which L = sum of lead times of stages 1, ..., j) for j = 1, ..., N.
 	sum_ltd_dist = {}
 	for j in indices:
-		sum_ltd_dist[j] = demand_source.lead_time_demand_distribution(float(np.sum(L[1:(j+1)])))
+		sum_ltd_dist[j] = demand_source.lead_time_demand_distribution(sum_lead_times(j))
 	
 	# Solve newsvendor problems.
 	S_heur = {}
@@ -666,14 +672,14 @@ def newsvendor_heuristic(num_nodes=None, node_order_in_system=None, node_order_i
 		elif demand_source.type == 'UC':
 			# Uniform continuous.
 			# Build LTD distribution.
-			ltd_distrib = demand_source.lead_time_demand_distribution(float(np.sum(L[1:(j+1)])))
+			ltd_distrib = demand_source.lead_time_demand_distribution(sum_lead_times(j))
 			# Calculate newsvendor quantities.
 			S_u, _ = newsvendor_continuous(h_eff_u, stockout_cost, ltd_distrib)
 			S_l, _ = newsvendor_continuous(h_eff_l, stockout_cost, ltd_distrib)
 		elif demand_source.type in ('UD', 'CD'):
 			# Discrete.
 			# Build LTD distribution.
-			ltd_distrib = demand_source.lead_time_demand_distribution(float(np.sum(L[1:(j+1)])))
+			ltd_distrib = demand_source.lead_time_demand_distribution(sum_lead_times(j))
 			# Calculate newsvendor quantities.
 			S_u, _ = newsvendor_discrete(h_eff_u, stockout_cost, ltd_distrib)
 			S_l, _ = newsvendor_discrete(h_eff_l, stockout_cost, ltd_distrib)
